@@ -188,6 +188,14 @@ def gen(rng, tier):
             p = r ** n
             for x in (p - 1, p, p + 1):
                 emit(reqs, rng, x, n, signed_too=(n % 2 == 1 and r == 3))
+    # -- operands of 100 … 112 bits of the form r² + k·r, r² + k·r ± 1 (r of 50 … 56 bits): where an f64 estimate of the
+    #    root is within 1 below 2^53 and within 2 above, and the input itself is rounded (C11-h1)
+    for rb in range(50, 57):
+        for _ in range((12 if rb not in (54, 55) else 120) if not thorough else 300):
+            r = rng.randrange(1 << (rb - 1), 1 << rb)
+            k = rng.choice([0, 1, 2, r - 1, r, r + 1, 2 * r - 1, 2 * r, rng.randrange(2 * r), rng.randrange(2 * r), rng.randrange(2 * r)])
+            for x in (r * r + k, r * r + k - 1 if r * r + k > 0 else 0, r * r + k * 1 + 1):
+                emit(reqs, rng, x, 2, signed_too=False)
     reqs += inherent_methods(rng, thorough)
     return reqs
 
